@@ -114,14 +114,24 @@ func (p *uPacketPacker) PackCoalescedPacket(onlyAck bool, maxSize protocol.ByteC
 		}
 	}
 
-	// [UQUIC] An Initial packet that the spec pins to an exact PacketSize is padded to that
-	// size inside the packet, whatever `size` says: nothing can be coalesced behind it.
-	initialOwnsDatagram := !onlyAck && len(initialPayload.frames) > 0 &&
-		p.uSpec.InitialPacketSpec.planFor(p.initialDatagramIdx).PacketSize > 0
+	// [UQUIC] How large a spec-built Initial packet gets is decided by the frame builder
+	// (re-framing, PING and PADDING frames, QUICRandomFrames.Length) and by the spec's
+	// PacketSize, not by the length of the frames popped above. Build its payload now, so
+	// that the packets coalesced behind it are budgeted against its real size.
+	var uInitialPayload []byte
+	uInitialIdx := p.initialDatagramIdx
+	if initialPayload.length > 0 && !onlyAck && len(initialPayload.frames) > 0 {
+		var err error
+		uInitialPayload, err = p.MarshalInitialPacketPayload(initialPayload, v)
+		if err != nil {
+			return nil, err
+		}
+		size = p.initialPacketLen(initialHdr, uInitialPayload, uInitialIdx, initialSealer, v)
+	}
 
 	// Add a Handshake packet.
 	var handshakeSealer sealer
-	if !initialOwnsDatagram && ((onlyAck && size == 0) || (!onlyAck && size < maxSize-protocol.MinCoalescedPacketSize)) {
+	if (onlyAck && size == 0) || (!onlyAck && size < maxSize-protocol.MinCoalescedPacketSize) {
 		var err error
 		handshakeSealer, err = p.cryptoSetup.GetHandshakeSealer()
 		if err != nil && err != handshake.ErrKeysDropped && err != handshake.ErrKeysNotYetAvailable {
@@ -148,7 +158,7 @@ func (p *uPacketPacker) PackCoalescedPacket(onlyAck bool, maxSize protocol.ByteC
 	var oneRTTSealer handshake.ShortHeaderSealer
 	var connID protocol.ConnectionID
 	var kp protocol.KeyPhaseBit
-	if !initialOwnsDatagram && ((onlyAck && size == 0) || (!onlyAck && size < maxSize-protocol.MinCoalescedPacketSize)) {
+	if (onlyAck && size == 0) || (!onlyAck && size < maxSize-protocol.MinCoalescedPacketSize) {
 		var err error
 		oneRTTSealer, err = p.cryptoSetup.Get1RTTSealer()
 		if err != nil && err != handshake.ErrKeysDropped && err != handshake.ErrKeysNotYetAvailable {
@@ -200,13 +210,13 @@ func (p *uPacketPacker) PackCoalescedPacket(onlyAck bool, maxSize protocol.ByteC
 			}
 			packet.longHdrPackets = append(packet.longHdrPackets, cont)
 		} else { // [UQUIC]
-			cont, err := p.appendInitialPacket(buffer, initialHdr, initialPayload, protocol.EncryptionInitial, initialSealer, v)
+			cont, err := p.appendInitialPacketPayload(buffer, initialHdr, initialPayload, uInitialPayload, uInitialIdx, protocol.EncryptionInitial, initialSealer, v)
 			if err != nil {
 				return nil, err
 			}
 
 			packet.longHdrPackets = append(packet.longHdrPackets, cont)
-			// [UQUIC] appendInitialPacket has padded the datagram to UDPDatagramMinSize with
+			// [UQUIC] appendInitialPacketPayload has padded the datagram to UDPDatagramMinSize with
 			// zeros behind the Initial packet. Packets coalesced into this datagram have to
 			// follow the Initial packet directly (a receiver stops at the first zero byte,
 			// and the padded Initial plus the other packets can exceed the packet buffer):
@@ -251,6 +261,23 @@ func (p *uPacketPacker) appendInitialPacket(buffer *packetBuffer, header *wire.E
 		return nil, err
 	}
 	return p.appendInitialPacketPayload(buffer, header, pl, uPayload, idx, encLevel, sealer, v)
+}
+
+// initialPacketLen is the length of the Initial packet that appendInitialPacketPayload
+// makes of uPayload (without the datagram padding behind it). [UQUIC]
+func (p *uPacketPacker) initialPacketLen(header *wire.ExtendedHeader, uPayload []byte, idx int, sealer sealer, v protocol.Version) protocol.ByteCount {
+	hdr := *header
+	n := protocol.ByteCount(len(uPayload))
+	overhead := protocol.ByteCount(sealer.Overhead())
+	if plan := p.uSpec.InitialPacketSpec.planFor(idx); plan.PacketSize > 0 {
+		target := protocol.ByteCount(plan.PacketSize)
+		hdr.Length = target
+		if cur := hdr.GetLength(v) + n + overhead; target > cur {
+			n += target - cur
+		}
+	}
+	hdr.Length = protocol.ByteCount(hdr.PacketNumberLen) + overhead + n
+	return hdr.GetLength(v) + n + overhead
 }
 
 // appendInitialPacketPayload serializes an Initial packet whose frame payload is already
